@@ -3,7 +3,7 @@
    closure advance_subtractor, the two nested `while` loops inside the `for`, the carving of holes
    with its `break`s) equals Model/Sweeps.v's diff_sweep (dskip / dcarve / dsweep), given fuel for
    one pass over the subtractors per inner loop. *)
-From CG Require Import Model.Loop Gen.Source Model.Sweeps Proofs.GenEq.
+From CG Require Import Model.Loop Gen.Source Model.Sweeps.
 From Coq Require Import Lia.
 
 (* (subtractor_iter, current_subtractor) when the merged subtractor stream still to be seen is [subs] *)
@@ -156,6 +156,9 @@ Proof.
     rewrite IH by (pose proof (step_of_length ev subs); lia).
     rewrite dsweep_step. reflexivity.
 Qed.
+
+Lemma unS_if z : (if negb (z =? NEG_INF) then Some z else None) = unS z.
+Proof. unfold unS. destruct (z =? NEG_INF); reflexivity. Qed.
 
 Lemma unE_if z : (if negb (z =? POS_INF) then Some z else None) = unE z.
 Proof. unfold unE. destruct (z =? POS_INF); reflexivity. Qed.
